@@ -174,9 +174,17 @@ def run(ctx: Ctx):
     ctx.fn(fi)
     it = vg.Interp(ctx.repo, rf, inline_policy=lambda f, a: False)
     fr = it.run_function(fi)
-    L = fr.locals
+    # the values are read off the dict handed to policy_out.update({...}) (its keys are the module's reporting API), not off local names
+    L = {k: v for k, v in fr.locals.items() if k in fi.params()}
+    for e in it.events:
+        if e.kind == "methcall" and e.data[1] == "update" and e.data[2] and isinstance(e.data[2][0], vg.S) and e.data[2][0].op == "dict":
+            for it_ in e.data[2][0].args:
+                if it_.op == "item" and it_.args[0].op == "const":
+                    L[it_.args[0].args[0]] = it_.args[1]
     adv0 = None
     loss, rl = L.get("loss"), L.get("reinforce_loss")
+    if not all(isinstance(L.get(k), vg.S) for k in ("bl_loss", "bl_val", "reward")):
+        loss = None
     ok, why = False, "loss structure not recognised"
     if isinstance(loss, vg.S) and isinstance(rl, vg.S):
         pl = nf.poly(loss)
@@ -230,6 +238,8 @@ def run(ctx: Ctx):
                         ok = nn_ == {"reward", "log_likelihood"} and len(means) == 1 and any(a.op == "param" and a.args[0] == "log_likelihood" for a, _ in pos[0])
                         if means:
                             kws = {k.args[0]: k.args[1] for k in means[0].args[2:] if k.op == "kw"}
+                            if nf.axis_arg(means[0]) is not None:
+                                kws["dim"] = nf.axis_arg(means[0])
                             okc = "dim" in kws and kws["dim"].op == "param" and vg.is_const(kws.get("keepdim", vg.const(False)), True) and means[0].args[0].op == "param" and means[0].args[0].args[0] == "reward"
                         why = f"mean(-(reward - mean(reward, dim, keepdim=True)) * ll): terms {p.show(2)}"
         # the early `return 0` is taken exactly when fewer than two replicas exist on `dim`
@@ -255,6 +265,8 @@ def run(ctx: Ctx):
     okc = a is not None and a.op == "meth" and a.args[1] == "mean" and a.args[0].op == "param" and a.args[0].args[0] == "reward"
     if okc:
         kws = {k.args[0]: k.args[1] for k in a.args[2:] if k.op == "kw"}
+        if nf.axis_arg(a) is not None:
+            kws["dim"] = nf.axis_arg(a)
         okc = "dim" in kws and vg.is_const(kws.get("keepdims", kws.get("keepdim", vg.const(False))), True)
     ctx.ob("C16.c", "SharedBaseline.eval:shared-mean", bool(okc), fi.loc, "reward.mean(dim=on_dim, keepdims=True)", construct="SharedBaseline.eval:keepdim")
     # ---------------- PPO
@@ -282,9 +294,34 @@ def run(ctx: Ctx):
                 best = unwrap(v)
         return best
 
-    adv, ratio, sl, vl, loss = body("adv"), body("ratio"), body("surrogate_loss"), body("value_loss"), body("loss")
+    # the pieces are recovered from the value handed to manual_backward (not by local names):
+    #   loss = -mean(min(ratio * adv, clamp(ratio, ..) * adv)) + c_v * huber(value_pred, R) - c_e * mean(entropy)
+    mb = [e for e in it.events if e.kind == "selfcall" and e.data[1] == "manual_backward" and e.data[2]]
+    if len(mb) != 1:
+        raise AnalysisError(f"PPO.shared_step: expected one self.manual_backward(loss), found {len(mb)}")
+    loss = unwrap(mb[0].data[2][0])
+    adv = ratio = sl = vl = None
+    pl0 = nf.poly(loss)
+    raw_nodes = list(vg.walk(loss))
+    mm = [a for a in raw_nodes if a.op == "meth" and a.args[1] == "mean" and nf._fn(nf.strip(a.args[0])) == "torch.min"]
+    hub = [a for a in raw_nodes if nf._fn(a) == "torch.nn.functional.huber_loss"]
+    if len(mm) == 1 and len(hub) == 1:
+        sl = vg.mk("neg", mm[0])
+        vl = hub[0]
+        mn0 = nf.strip(mm[0].args[0])
+        cand = [x for x in mn0.args[1:3] if isinstance(x, vg.S) and x.op == "*" and len(x.args) == 2]
+        for x in cand:
+            fac = list(x.args)
+            has_exp = [any(nf._fn(n) == "torch.exp" for n in vg.walk(f_)) for f_ in fac]
+            has_clamp = [any(nf._fn(n) == "torch.clamp" for n in vg.walk(f_)) for f_ in fac]
+            if sum(has_exp) == 1 and not any(has_clamp):
+                ratio = fac[has_exp.index(True)]
+                adv = fac[1 - has_exp.index(True)]
     if any(x is None for x in (adv, ratio, sl, vl, loss)):
-        raise AnalysisError("PPO.shared_step: loss variables not found")
+        ctx.ob("C16.b", "PPO.shared_step:clipped-surrogate", False, pp.loc,
+               "the value given to manual_backward is not -mean(min(ratio * adv, clamp(ratio, ..) * adv)) + c_v * huber_loss(..) - c_e * mean(entropy): "
+               f"{pl0.show(2)[:200]}", construct="PPO.shared_step:surrogate")
+        return
     # advantage (before optional normalisation): previous_reward - value_pred.detach()
     adv_raw = adv
     while adv_raw.op in ("phi", "ifexp"):
@@ -333,7 +370,14 @@ def run(ctx: Ctx):
                 ok_s = (t1 == want1) and c_ok
                 why_s = f"-mean(min(ratio*adv: {t1 == want1}, clamp(ratio, 1-eps, 1+eps)*adv with one ratio/adv/eps: {c_ok}))"
     ctx.ob("C16.b", "PPO.shared_step:clipped-surrogate", ok_s, pp.loc, why_s, construct="PPO.shared_step:surrogate")
-    okv = nf._fn(vl) == "torch.nn.functional.huber_loss" and vl.args[1] is body("value_pred") and vl.args[2] is body("previous_reward")
+    # huber(value_pred, R) regresses the critic output that the advantage detaches, onto the reward the advantage starts from
+    okv = False
+    if nf._fn(vl) == "torch.nn.functional.huber_loss" and len(vl.args) >= 3:
+        vp_, rw_ = nf.norm(vl.args[1]), nf.norm(vl.args[2])
+        posm = [fs for c, fs in pa.monos() if c == 1 and len(fs) == 1]
+        negm = [fs for c, fs in pa.monos() if c == -1 and len(fs) == 1]
+        okv = len(posm) == 1 and len(negm) == 1 and posm[0][0][0] is rw_ and negm[0][0][0] is nf.norm(nf.strip(vl.args[1])) or \
+            (len(posm) == 1 and len(negm) == 1 and posm[0][0][0] is rw_ and nf.norm(negm[0][0][0]) is vp_)
     ctx.ob("C16.b", "PPO.shared_step:value-loss", okv, pp.loc, "value_loss = huber_loss(value_pred, previous_reward)", construct="PPO.shared_step:value-loss")
     pl = nf.poly(loss)
     tm = pl.monos()
